@@ -102,3 +102,90 @@ def run(rep, maxlen, seed, quote_strict=True):
             rep.sample({"kind": "Lexer S->C case", "cs": "".join(c["cs"]), "ok": c["ok"], "toks": c["toks"]})
     finally:
         shutil.rmtree(tmp, ignore_errors=True)
+
+
+def _scan_event(args):
+    """A random character-class string of length 5..40 scanned by the real code."""
+    idx, seed = args
+    from formulae.scanner import Scanner
+
+    rng = random.Random((seed * 99991 + idx) & 0xFFFFFFFF)
+    n = rng.randint(5, 40)
+    # mostly well-formed: words, numbers, operators and blanks; quotes and illegal characters are rare
+    weights = {"a": 12, "d": 8, ".": 3, "_": 1, "q": 1, "Q": 1, "b": 1, "s": 10, "*": 3, "/": 2, "=": 2, "!": 1, "<": 2, "~": 1, "p": 10, "@": 0.3}
+    classes = list(weights)
+    cs = rng.choices(classes, weights=[weights[c] for c in classes], k=n)
+    # close quotes most of the time
+    for qc in ("q", "Q", "b"):
+        if cs.count(qc) % 2 == 1 and rng.random() < 0.8:
+            cs.append(qc)
+    if cs.count("~") > 1 and rng.random() < 0.7:
+        first = cs.index("~")
+        cs = [c for k, c in enumerate(cs) if c != "~" or k == first]
+    text = "".join(rng.choice(CONCRETE[c]) for c in cs)
+    ev = {"id": idx, "cs": cs, "ok": False, "toks": []}
+    try:
+        toks = Scanner(text).scan()
+    except Exception:  # pylint: disable=broad-except
+        return ev, text, []
+    ev["ok"] = True
+    # recover positions by walking the text: lexemes in order, blanks skipped; inserted tokens have position 0
+    pos = 0
+    out = []
+    lits = []
+    body = toks[:-1]
+    tpos = [k for k, t in enumerate(body) if t.kind == "TILDE"]
+    # the two inserted tokens: right after the only tilde token, or in front
+    ins = {tpos[0] + 1, tpos[0] + 2} if tpos else {0, 1}
+    for k, t in enumerate(body):
+        if k in ins:
+            out.append([t.kind, 0, 0])
+            continue
+        while pos < len(text) and text[pos] in " \t\n\r":
+            pos += 1
+        if not t.lexeme or text[pos : pos + len(t.lexeme)] != t.lexeme:
+            out.append([t.kind, -1, -1])  # a lexeme that is not at the next non-blank position
+            continue
+        kind = t.kind
+        if kind in PUNCT.values():
+            kind = "PUNCT"
+        elif kind in ("LESS", "GREATER"):
+            kind = "CMP"
+        elif kind in ("LESS_EQUAL", "GREATER_EQUAL"):
+            kind = "CMP_EQUAL"
+        out.append([kind, pos + 1, pos + len(t.lexeme)])
+        lits.append(_literal_ok(t.kind, t.lexeme, t.literal) if t.kind in ("NUMBER", "STRING") else True)
+        pos += len(t.lexeme)
+    ev["toks"] = out
+    return ev, text, lits
+
+
+def traces(rep, n, seed):
+    results = common.pool_map(_scan_event, [(i, seed) for i in range(n)])
+    events = [r[0] for r in results]
+    texts = {r[0]["id"]: r[1] for r in results}
+    tmp = tlc.scratch_dir("fv_c01lt_")
+    try:
+        path = os.path.join(tmp, "t.ndjson")
+        common.write_ndjson(path, events)
+        res = tlc.run_tlc("Lexer_Trace", env={"FV_TRACE": path}, workers=1, heap="4g", timeout=1800)
+        rep.add_tlc("Lexer_Trace", res)
+        if not any(v[1] == "done" and v[2] == len(events) for v in res.fv):
+            raise tlc.TLCFailure("Lexer_Trace did not consume the whole trace")
+        rep.cov["traces_validated_against_impl"] += len(events)
+        rep.cov["evaluations"] += len(events)
+        emap = {e["id"]: e for e in events}
+        for v in res.fv:
+            if v[1] == "bad":
+                if v[3] == "rejected_sentence":
+                    rep.cov["impl_drift"] += 1
+                    continue
+                rep.violation({"clause": v[3], "site": "Scanner.scan", "judge": "Lexer_Trace"}, {"text": texts[v[2]], "event": emap[v[2]]})
+        for (ev, text, lits) in results:
+            if ev["ok"] and not all(lits):
+                rep.violation({"clause": "literal_value_differs", "site": "Scanner.scan"}, {"text": text})
+            if ev["ok"] and len(ev["toks"]) >= 8:
+                rep.nontrivial_key("LT:" + "".join(ev["cs"]))
+        rep.sample({"kind": "C->S scan event", "text": texts[events[0]["id"]], "event": events[0]})
+    finally:
+        shutil.rmtree(tmp, ignore_errors=True)
